@@ -201,10 +201,17 @@ double GammaQint(double x, double a)
 		};
 		if(x < tMin)
 			tMin = 0.0;
-		// Precision
-		double eps = Find_Epsilon(integrand, tMin, x, 1e-5);
-		// Integrate
-		gammaP = Integrate(integrand, tMin, x, eps);
+		// Integrate in panels of one standard deviation sqrt(a) of the integrand: on a single wide interval the adaptive
+		// Simpson estimate can agree with its refinement by coincidence and stop prematurely.
+		gammaP		   = 0.0;
+		double t_left  = tMin;
+		while(t_left < x)
+		{
+			double t_right = std::min(x, t_left + sqrt(a));
+			double eps	   = Find_Epsilon(integrand, t_left, t_right, 1e-5);
+			gammaP += Integrate(integrand, t_left, t_right, eps);
+			t_left = t_right;
+		}
 	}
 
 	return 1.0 - gammaP;
